@@ -48,6 +48,10 @@ func checkC05(c *Check) {
 	c.RuleDoc["R05.15"] = "= R19.4: the block-size codes a descriptor may carry are exactly 4..7 (a reserved code is refused even when the check byte matches)"
 	ruleObserversPure(c, p, "R05.12")
 	c.RuleDoc["R05.12"] = "observer methods are pure (= R17.15): Size() cannot consume or judge a header"
+	ruleStreamsThroughInterface(c, p, "R05.16")
+	c.RuleDoc["R05.16"] = "= R07.10: the source is only read through io.Reader (a Seek over a skippable frame does not notice that the announced bytes are missing)"
+	ruleStreamFieldsRearmed(c, p, "R05.17")
+	c.RuleDoc["R05.17"] = "= R17.9: per-stream fields of the Reader (position in the pending block, running counts) are re-initialised for every stream: a stale position makes Read hand out bytes that no checksum covered"
 	ruleHeaderParsers(c, p, "R05.11")
 	c.RuleDoc["R05.11"] = "the header is parsed only by Reader.init (error latched) and ValidFrameHeader (private frame, whole input)"
 	c.only(func(k string) bool { return strings.HasPrefix(k, "initR.worker#") }, func() { ruleReleaseAfterUse(c, p, "R05.10") })
@@ -75,6 +79,8 @@ func checkC06(c *Check) {
 	ruleBlocksCloseLatch(c, p, "R06.6")
 	ruleStreamsThroughInterface(c, p, "R06.8")
 	c.RuleDoc["R06.8"] = "= R07.10: the source is only read (no Seek past its end): truncation inside a skipped region is seen"
+	c.only(func(k string) bool { return strings.HasPrefix(k, "reader#") }, func() { ruleWireFields(c, p, "R06.9") })
+	c.RuleDoc["R06.9"] = "= R02.1, read side: every declared trailer and block field is consumed under exactly its own descriptor flag (a field skipped for some option combination is a place where a cut goes unnoticed)"
 	ruleLegacyDescriptor(c, p, "R06.7")
 	c.RuleDoc["R06.7"] = "the synthetic descriptor of a legacy frame declares only the block size (legacy frames stay on the sequential path)"
 }
